@@ -194,6 +194,45 @@ fn c07_filtered_register_callsite_adds_own_interest() {
     assert!(pending.is_some() && vicode(pending.as_ref().unwrap()) == f.interest, "C07.Filtered.register_callsite.pending_interest_is_own_filters");
 }
 
+// A layer whose filter is a combinator: what Filtered caches for the callsite (the interest it leaves pending for the
+// stack) may only settle what the parts settle. `always` means the stack never asks the filter again for this callsite,
+// so the combined filter must then accept whatever its dynamic parts answer; `never` means it must reject. Each part is
+// assumed sound on its own (never => rejects, always => accepts); the parts' dynamic answers are arbitrary otherwise.
+fn part_sound(f: &VFil) -> bool { (f.interest != 0 || !f.enabled) && (f.interest != 2 || (f.enabled && f.ev_enabled)) }
+fn combinator_body<F: subscribe::Filter<VRoot> + 'static>(fil: F) -> (u8, bool, bool) {
+    let mut root = any_root();
+    let mut layer = Filtered::new(VRec::plain(0), fil);
+    Subscribe::<VRoot>::on_subscribe(&mut layer, &mut root);
+    let got = Subscribe::<VRoot>::register_callsite(&layer, &VMETA);
+    assert!(got.is_always(), "C07.Filtered.register_callsite.never_short_circuits_the_stack");
+    let pending = FilterState::take_interest();
+    assert!(pending.is_some(), "C07.Filtered.register_callsite.leaves_its_interest_pending");
+    let cx = Context::__verif_new(&root);
+    let vs = VMETA.fields().value_set(&[]); let e = Event::new(&VMETA, &vs);
+    let en = subscribe::Filter::<VRoot>::enabled(&layer.filter, &VMETA, &cx);
+    let ev = subscribe::Filter::<VRoot>::event_enabled(&layer.filter, &e, &cx);
+    let i = vicode(pending.as_ref().unwrap());
+    core::mem::forget(layer);
+    (i, en, ev)
+}
+#[kani::proof]
+#[kani::unwind(4)]
+#[kani::stub(core::fmt::Formatter::pad, pad_stub)]
+fn c07_filtered_with_a_combinator_filter_caches_only_what_its_parts_settle() {
+    use crate::filter::FilterExt as _;
+    let a = VFil::any(); let b = VFil::any();
+    kani::assume(part_sound(&a) && part_sound(&b));
+    let which: u8 = nd(); kani::assume(which < 3);
+    let (i, en, ev) = match which {
+        0 => { let r = combinator_body(a.and(b)); assert!(r.1 == (a.enabled && b.enabled), "C07.And.accepts_iff_both_parts_accept"); r }
+        1 => { let r = combinator_body(a.or(b)); assert!(r.1 == (a.enabled || b.enabled), "C07.Or.accepts_iff_a_part_accepts"); r }
+        _ => { let r = combinator_body(a.not()); assert!(r.1 == !a.enabled, "C07.Not.accepts_iff_the_part_rejects"); r }
+    };
+    assert!(i != 2 || (en && ev), "C07.combinator.cached_always_only_if_no_dynamic_part_can_still_reject");
+    assert!(i != 0 || !en, "C07.combinator.cached_never_only_if_no_dynamic_part_can_still_accept");
+    kani::cover!(which == 0 && a.interest == 2 && b.interest == 1 && !b.enabled, "C07.reachable.static_and_dynamic");
+}
+
 // ---------- whole emission through a real Layered stack of two Filtered layers over the stub root
 macro_rules! two_layer_stack {
     ($fa:expr, $fb:expr) => { VRoot::empty().with(VRec::plain(0).with_filter($fa)).with(VRec::plain(1).with_filter($fb)) };
